@@ -50,7 +50,9 @@ const (
 	evDelete   = 6  // x       CloudControl.DeleteClient
 	evRate     = 7  // b       b=1: the anonymous rate limiter denies everything, b=0: allows everything
 	evClose    = 8  // k       SessionManager.CloseConnection
-	evOpen     = 9  // k a     SessionManager.CreateConnection from address a (slot k)
+	evOpen     = 9  // k a [w] SessionManager.CreateConnection from address a (slot k); w = shape of RemoteAddr():
+	//                         0 *net.TCPAddr | 1 *net.UDPAddr | 2 generic net.Addr "host:port" | 3 *net.TCPAddr with a 16-byte (IPv4-mapped)
+	//                         IP | 4 generic net.Addr that keeps the IPv6 zone ("[fe80::1%eth0]:port").  Link-local addresses carry zone eth0.
 	evRekey    = 10 // x       CloudControl.ResetClientCredentials
 	evRegister = 11 //         out-of-band registration of a new client (GenerateAnonymousCredentials)
 	evBadJSON  = 12 // k       handshake packet whose payload is not JSON
@@ -65,6 +67,8 @@ const (
 	evLand      = 19 // a       the asynchronous removal lands: all Ps back, 5 ms pass
 	evSetRecord = 20 // x uid exp typ  the stored record of client x is rewritten: UserID "" / "user-<uid>"; ExpiresAt nil (0) /
 	//                          in an hour (1) / an hour ago (2); Type anonymous (0) / registered (1)
+	evWhite   = 21 // a cidr  IPManager.AddToWhitelist (exact address, or cidr=1: the /32 resp. /128 range)
+	evUnwhite = 22 // a cidr  IPManager.RemoveFromWhitelist
 	evCorrupt  = 14 // x kind  the stored credential (ClientConfig.SecretKeyEncrypted) of client x becomes unusable:
 	//                         0 "" (unmigrated legacy record) | 1 not base64 | 2 base64 but not decryptable |
 	//                         3 sealed under another master key | 4 base64 shorter than a nonce
@@ -85,8 +89,41 @@ const (
 type transport struct {
 	mu     sync.Mutex
 	ip     string
+	remote net.Addr
 	buf    bytes.Buffer
 	closed bool
+}
+
+type strAddr string
+
+func (a strAddr) Network() string { return "websocket" }
+func (a strAddr) String() string  { return string(a) }
+
+// remoteAddr builds the peer address in the requested shape; fam 2 = link-local IPv6 (zone eth0 on real sockets)
+func remoteAddr(ip string, fam, wrap int) net.Addr {
+	zone := ""
+	if fam == 2 {
+		zone = "eth0"
+	}
+	p := net.ParseIP(ip)
+	if fam == 0 {
+		p = p.To4()
+	}
+	switch wrap {
+	case 1:
+		return &net.UDPAddr{IP: p, Port: 40000, Zone: zone}
+	case 2:
+		return strAddr(net.JoinHostPort(ip, "40000"))
+	case 3:
+		return &net.TCPAddr{IP: net.ParseIP(ip).To16(), Port: 40000, Zone: zone}
+	case 4:
+		if zone != "" {
+			return strAddr(net.JoinHostPort(ip+"%"+zone, "40000"))
+		}
+		return strAddr(net.JoinHostPort(ip, "40000"))
+	default:
+		return &net.TCPAddr{IP: p, Port: 40000, Zone: zone}
+	}
 }
 
 func (t *transport) Read(p []byte) (int, error) { return 0, io.EOF }
@@ -112,7 +149,7 @@ func (t *transport) take() []byte {
 	return b
 }
 func (t *transport) LocalAddr() net.Addr                { return &net.TCPAddr{IP: net.ParseIP("127.0.0.1"), Port: 7000} }
-func (t *transport) RemoteAddr() net.Addr               { return &net.TCPAddr{IP: net.ParseIP(t.ip), Port: 40000} }
+func (t *transport) RemoteAddr() net.Addr               { return t.remote }
 func (t *transport) SetDeadline(time.Time) error      { return nil }
 func (t *transport) SetReadDeadline(time.Time) error  { return nil }
 func (t *transport) SetWriteDeadline(time.Time) error { return nil }
@@ -146,6 +183,9 @@ type world struct {
 	// specification bookkeeping of the blacklist (never read back from the server): survives a restart
 	blackIP   map[int]bool
 	blackCidr map[int]bool
+	whiteIP   map[int]bool
+	whiteCidr map[int]bool
+	fam       map[int]int // address family per address: 0 IPv4, 1 global IPv6, 2 link-local IPv6
 	// a ban once seen in force (manual 1 h, or by failures 30 min / permanent) must stay until UnbanIP or a restart
 	specBan  map[int]bool
 	lostSeen map[int]bool
@@ -169,6 +209,7 @@ type stepObs struct {
 	N   int      `json:"n"`           // number of clients
 }
 type caseIn struct {
+	Fam   map[string]int `json:"fam"`
 	Slots []int   `json:"slots"`
 	Addrs []int   `json:"addrs"`
 	Ops   [][]int `json:"ops"`
@@ -331,8 +372,26 @@ func (w *world) ip(a int) string {
 	}
 	n := caseSeq*8 + a%8 + 1
 	s := fmt.Sprintf("10.%d.%d.%d", (n>>16)&255, (n>>8)&255, n&255)
+	switch w.fam[a] {
+	case 1:
+		s = net.ParseIP(fmt.Sprintf("2001:db8::%x:%x", (n>>16)&0xffff, n&0xffff)).String()
+	case 2:
+		s = net.ParseIP(fmt.Sprintf("fe80::%x:%x", (n>>16)&0xffff, n&0xffff)).String()
+	}
 	w.addrs[a] = s
 	return s
+}
+
+// the narrowest range covering exactly address a
+func (w *world) cidr(a int) string {
+	if w.fam[a] == 0 {
+		return w.ip(a) + "/32"
+	}
+	return w.ip(a) + "/128"
+}
+
+func (w *world) specBlocked(a int) bool {
+	return !(w.whiteIP[a] || w.whiteCidr[a]) && (w.blackIP[a] || w.blackCidr[a])
 }
 
 func (w *world) v(step int, kind, f string, a ...interface{}) {
@@ -427,7 +486,7 @@ func (w *world) msgStep(step int, op []int, o *stepObs, out *caseOut) {
 		ip := w.addrs[c.addr]
 		b := bannedNow(ip)
 		ok, _ := fx.IPManager.IsAllowed(ip)
-		gated = b || !ok || w.blackIP[c.addr] || w.blackCidr[c.addr] || w.specBan[c.addr]
+		gated = b || !ok || w.specBlocked(c.addr) || w.specBan[c.addr]
 		// bind the monitor state to the ControlConnection object
 		if preSnap[k].cc != c.cc {
 			c.cc, c.proved, c.live = preSnap[k].cc, 0, ""
@@ -639,9 +698,9 @@ func (w *world) invariants(step int) {
 		}
 	}
 	for a, ip := range w.addrs {
-		if w.blackIP[a] || w.blackCidr[a] {
+		if w.specBlocked(a) {
 			if ok, _ := fx.IPManager.IsAllowed(ip); ok {
-				w.v(step, "blacklist-gate-lost", "address %d is blacklisted (ip entry %v, cidr entry %v) but IPManager.IsAllowed says yes", a, w.blackIP[a], w.blackCidr[a])
+				w.v(step, "blacklist-gate-lost", "address %d is blacklisted (ip entry %v, range entry %v) and not whitelisted but IPManager.IsAllowed says yes", a, w.blackIP[a], w.blackCidr[a])
 			}
 		}
 	}
@@ -768,8 +827,13 @@ func runCase(raw json.RawMessage) interface{} {
 	var in caseIn
 	must(json.Unmarshal(raw, &in))
 	caseSeq++
-	w := &world{specBan: map[int]bool{}, lostSeen: map[int]bool{}, blackIP: map[int]bool{}, blackCidr: map[int]bool{}, conns: map[int]*hconn{}, addrs: map[int]string{}, clients: []*hclient{nil}, secrets: []string{""}, chals: []string{""}}
+	w := &world{whiteIP: map[int]bool{}, whiteCidr: map[int]bool{}, fam: map[int]int{}, specBan: map[int]bool{}, lostSeen: map[int]bool{}, blackIP: map[int]bool{}, blackCidr: map[int]bool{}, conns: map[int]*hconn{}, addrs: map[int]string{}, clients: []*hclient{nil}, secrets: []string{""}, chals: []string{""}}
 	out := &caseOut{}
+	for k, v := range in.Fam {
+		var a int
+		fmt.Sscanf(k, "%d", &a)
+		w.fam[a] = v
+	}
 	for i, op := range in.Ops {
 		o := stepObs{}
 		switch op[0] {
@@ -810,11 +874,27 @@ func runCase(raw json.RawMessage) interface{} {
 			if len(op) > 2 && op[2] == 1 {
 				d = 0
 			}
-			must(fx.IPManager.AddToBlacklist(w.ip(op[1])+"/32", d, "verif", "verif"))
+			must(fx.IPManager.AddToBlacklist(w.cidr(op[1]), d, "verif", "verif"))
 			w.blackCidr[op[1]] = true
 		case evUnblackC:
-			fx.IPManager.RemoveFromBlacklist(w.ip(op[1]) + "/32")
+			fx.IPManager.RemoveFromBlacklist(w.cidr(op[1]))
 			w.blackCidr[op[1]] = false
+		case evWhite:
+			if op[2] == 1 {
+				must(fx.IPManager.AddToWhitelist(w.cidr(op[1]), "verif", "verif"))
+				w.whiteCidr[op[1]] = true
+			} else {
+				must(fx.IPManager.AddToWhitelist(w.ip(op[1]), "verif", "verif"))
+				w.whiteIP[op[1]] = true
+			}
+		case evUnwhite:
+			if op[2] == 1 {
+				fx.IPManager.RemoveFromWhitelist(w.cidr(op[1]))
+				w.whiteCidr[op[1]] = false
+			} else {
+				fx.IPManager.RemoveFromWhitelist(w.ip(op[1]))
+				w.whiteIP[op[1]] = false
+			}
 		case evRestart:
 			if op[1] > 0 {
 				must(fx.IPManager.AddToBlacklist(w.ip(op[1]-1), 25*time.Millisecond, "verif-short", "verif"))
@@ -873,7 +953,11 @@ func runCase(raw json.RawMessage) interface{} {
 			if c := w.conns[op[1]]; c != nil {
 				_ = fx.Session.CloseConnection(c.id)
 			}
-			tr := &transport{ip: w.ip(op[2])}
+			wrap := 0
+			if len(op) > 3 {
+				wrap = op[3]
+			}
+			tr := &transport{ip: w.ip(op[2]), remote: remoteAddr(w.ip(op[2]), w.fam[op[2]], wrap)}
 			conn, err := fx.Session.CreateConnection(tr, tr)
 			must(err)
 			w.conns[op[1]] = &hconn{id: conn.ID, tr: tr, addr: op[2]}
@@ -918,6 +1002,10 @@ func runCase(raw json.RawMessage) interface{} {
 		fx.BruteForce.RecordSuccess(ip)
 		fx.IPManager.RemoveFromBlacklist(ip)
 		fx.IPManager.RemoveFromBlacklist(ip + "/32")
+		fx.IPManager.RemoveFromBlacklist(ip + "/128")
+		fx.IPManager.RemoveFromWhitelist(ip)
+		fx.IPManager.RemoveFromWhitelist(ip + "/32")
+		fx.IPManager.RemoveFromWhitelist(ip + "/128")
 	}
 	if w.rateOff {
 		fx.RateLimiter.SetIPRateLimit(1000000, 1000000)
